@@ -1,78 +1,80 @@
 /-
   C02 — a scan yields exactly the pairs with key ≥ start, ascending, once each.
 
-  Status: the FULL statement (`C02_scan_exact_statement`) is kept as a definition; proved so
-  far are its leaf-level core — on the leaf the descent lands on, the cursor's start index
-  selects exactly the entries with key ≥ start (this is the repaired D3) — and the routing
-  facts shared with Search (`route_facts`): every pair left of the landing leaf is < start,
-  every pair right of it is > start.  The chain walk (`Linked`: each leaf's `next` is its
-  in-order successor) is part of the proved invariant `TreeInv`; assembling the three into
-  the full statement additionally needs distinct leaf identities (work in progress).
+  `Tree.scanFrom P {} t s none fuel` is the model of: `c := NewScanner(s)`; then
+  `Scan()`/`Pair()` until `Scan()` returns false. The cursor follows the leaves' explicit
+  `next` fields (node identities), so that a scan equals the in-order walk is a theorem
+  (chain invariant `Linked` + distinct leaf identities `IdsInv`), not a definition.
 -/
-import Gobptree.Proofs.RunOk
+import Gobptree.Proofs.ScanTree
+import Gobptree.Proofs.IdsRun
+import Gobptree.Props.C01
 
 namespace Gobptree
 
 variable {K V : Type} {lt : K → K → Bool} {P : Params K}
 
-/-- FULL statement: on every tree satisfying the invariant, `NewScanner(s)` followed by
-    `Scan`/`Pair` until `Scan` returns false yields exactly `Spec.from (abs t) s`. -/
-def C02_scan_exact_statement (lt : K → K → Bool) (P : Params K) : Prop :=
-  ∀ (t : Tree K V), t.order = P.order → TreeInv lt t → ∀ (s : K),
-    ∃ fuel, t.scanFrom P {} s none fuel = .ok (Spec.from lt t.abs s, true)
+/-- **C02 (every reachable tree).** After EVERY history of Insert/Update/Delete/Search on a
+    fresh tree (any key type, strict weak order, even order ≥ 4) and for EVERY start key `s`
+    — stored, between stored keys, between two leaves, below the minimum, above the
+    maximum — `NewScanner(s)` followed by `Scan`/`Pair` until `Scan` returns false yields
+    exactly `Spec.from (contents) s`: the stored pairs with key ≥ `s`, in ascending order,
+    each once, with their current values; in particular nothing for an empty tree or a
+    start above the maximum. No panic on the way. -/
+theorem C02_scan_exact (hp : ParamsOk lt P) (h4 : 4 ≤ P.order) (ops : List (Op K V)) (s : K) :
+    ∃ (t' : Tree K V) (outs : List (Out V)) (fuel : Nat),
+      (Tree.new P.order : Tree K V).run P ops = .ok (t', outs) ∧
+      t'.scanFrom P {} s none fuel = .ok (Spec.from lt t'.abs s, true) := by
+  obtain ⟨hinv, _⟩ := new_ok (lt := lt) (K := K) (V := V) P.order
+  obtain ⟨t', heq, hinv', hto, _⟩ := run_ok hp ops (Tree.new P.order) rfl hinv (fun _ _ _ => h4)
+  have hids := run_ids P ops _ _ _ heq (new_ids P.order)
+  obtain ⟨fuel, hscan⟩ := scanFrom_ok hp.swo P hp.lt_eq hp.two_le t' hto hinv' hids.1 s
+  exact ⟨t', _, fuel, heq, hscan⟩
 
-/-- **C02 (partial), the start position is exact.** On a sorted leaf, dropping the first
-    `startIndex` entries leaves exactly the entries with key ≥ start — in particular nothing
-    if every key of the leaf is smaller than the start key (the repaired defect D3: the
-    clamped search alone would select the last key). -/
-theorem C02_start_exact_partial (h : SWO lt) (hP : P.lt = lt) (l : Leaf K V) (key : K)
+/-- **C02 (order 2, partial).** The same for order 2 (any even order ≥ 2) after histories
+    without Delete (KF-1). -/
+theorem C02_order2_partial (hp : ParamsOk lt P) (ops : List (Op K V))
+    (hnodel : ∀ op ∈ ops, op.isDelete = false) (s : K) :
+    ∃ (t' : Tree K V) (outs : List (Out V)) (fuel : Nat),
+      (Tree.new P.order : Tree K V).run P ops = .ok (t', outs) ∧
+      t'.scanFrom P {} s none fuel = .ok (Spec.from lt t'.abs s, true) := by
+  obtain ⟨hinv, _⟩ := new_ok (lt := lt) (K := K) (V := V) P.order
+  obtain ⟨t', heq, hinv', hto, _⟩ := run_ok hp ops (Tree.new P.order) rfl hinv
+    (fun op hop hd => by rw [hnodel op hop] at hd; exact absurd hd (by decide))
+  have hids := run_ids P ops _ _ _ heq (new_ids P.order)
+  obtain ⟨fuel, hscan⟩ := scanFrom_ok hp.swo P hp.lt_eq hp.two_le t' hto hinv' hids.1 s
+  exact ⟨t', _, fuel, heq, hscan⟩
+
+/-- **C02 (any tree satisfying the invariants).** -/
+theorem C02_scan_exact_inv (hp : ParamsOk lt P) (t : Tree K V) (hto : t.order = P.order)
+    (hinv : TreeInv lt t) (hids : IdsInv t) (s : K) :
+    ∃ fuel, t.scanFrom P {} s none fuel = .ok (Spec.from lt t.abs s, true) :=
+  scanFrom_ok hp.swo P hp.lt_eq hp.two_le t hto hinv hids.1 s
+
+/-- **C02, the start position is exact** (the repaired D3): on a sorted leaf, dropping the
+    first `startIndex` entries leaves exactly the entries with key ≥ start — nothing if
+    every key of the leaf is smaller than the start key. -/
+theorem C02_start_exact (h : SWO lt) (hP : P.lt = lt) (l : Leaf K V) (key : K)
     (hs : Sorted lt l.keys) (hlen : l.keys.length = l.vals.length) :
-    (l.keys.zip l.vals).drop (startIndex P {} key l) = Spec.from lt (l.keys.zip l.vals) key := by
-  subst hP
-  by_cases hnil : l.keys = []
-  · have hv : l.vals = [] := List.eq_nil_of_length_eq_zero (by rw [← hlen, hnil]; rfl)
-    simp [hnil, hv, Spec.from]
-  · obtain ⟨hg, A, B, hAdef, hBdef, hsplit, hA, hcase⟩ := searchGE_cases h key l.keys l.vals hs hlen hnil
-    have hAlen : A.length = searchGE P.lt key l.keys := by
-      rw [hAdef, List.length_zip, List.length_take, List.length_take]; omega
-    have hfromA : Spec.from P.lt A key = [] := Spec.from_of_allLt A key hA
-    unfold startIndex
-    simp only [Bool.false_eq_true, if_false]
-    rw [List.getElem?_eq_getElem hg]
-    simp only
-    rcases hcase with ⟨he, hB⟩ | ⟨hk, hB⟩ | ⟨hk, hlast, hBnil⟩
-    · have hnlt : P.lt l.keys[searchGE P.lt key l.keys] key = false := by
-        simp only [eqv, Bool.and_eq_true, Bool.not_eq_true'] at he; exact he.2
-      simp only [hnlt, Bool.false_eq_true, if_false]
-      have hge : ∀ p ∈ (l.keys[searchGE P.lt key l.keys], l.vals[searchGE P.lt key l.keys]'(by omega)) :: B, P.lt p.1 key = false := by
-        intro p hp
-        cases List.mem_cons.mp hp with
-        | inl e => rw [e]; exact hnlt
-        | inr e => exact h.asymm (hB p e)
-      rw [hsplit, Spec.from_append, hfromA, List.nil_append, Spec.from_of_allGe _ key hge]
-      generalize ((l.keys[searchGE P.lt key l.keys], l.vals[searchGE P.lt key l.keys]'(by omega)) :: B) = X
-      rw [← hAlen, List.drop_left]
-    · have hnlt : P.lt l.keys[searchGE P.lt key l.keys] key = false := h.asymm hk
-      simp only [hnlt, Bool.false_eq_true, if_false]
-      have hge : ∀ p ∈ (l.keys[searchGE P.lt key l.keys], l.vals[searchGE P.lt key l.keys]'(by omega)) :: B, P.lt p.1 key = false := by
-        intro p hp
-        cases List.mem_cons.mp hp with
-        | inl e => rw [e]; exact hnlt
-        | inr e => exact h.asymm (hB p e)
-      rw [hsplit, Spec.from_append, hfromA, List.nil_append, Spec.from_of_allGe _ key hge]
-      generalize ((l.keys[searchGE P.lt key l.keys], l.vals[searchGE P.lt key l.keys]'(by omega)) :: B) = X
-      rw [← hAlen, List.drop_left]
-    · simp only [hk, if_true]
-      have hall : AllLt P.lt (l.keys.zip l.vals) key := by
-        rw [hsplit, hBnil]
-        intro p hp
-        cases List.mem_append.mp hp with
-        | inl hm => exact hA p hm
-        | inr hm => simp at hm; subst hm; exact hk
-      rw [Spec.from_of_allLt _ key hall]
-      apply List.drop_eq_nil_of_le
-      rw [List.length_zip]; omega
+    (l.keys.zip l.vals).drop (startIndex P {} key l) = Spec.from lt (l.keys.zip l.vals) key :=
+  start_exact h hP l key hs hlen
+
+/-- the pre-repair behaviour (D3) really differs: with the clamped start index the scan of
+    the tree {8} from 9 yields 8 (kernel-checked on the model's `clampedStart` variant) -/
+theorem C02_clamped_start_counterexample :
+    (do let t ← (Tree.new 4 : Tree Nat Nat).insert (natP 4) 8 1
+        t.scanFrom (natP 4) { clampedStart := true } 9 none 5 : R _) = .ok ([(8, 1)], true) := by
+  rfl
+
+/-- non-vacuity: a concrete scan over a three-leaf tree, started between two leaves -/
+example : (do let (t, _) ← (Tree.new 4 : Tree Nat Nat).run (natP 4) ((List.range 10).map fun i => Op.insert (2 * i) i)
+              t.scanFrom (natP 4) {} 7 none 20 : R _) = .ok ([(8, 4), (10, 5), (12, 6), (14, 7), (16, 8), (18, 9)], true) := by
+  rfl
 
 end Gobptree
 
-#print axioms Gobptree.C02_start_exact_partial
+#print axioms Gobptree.C02_scan_exact
+#print axioms Gobptree.C02_order2_partial
+#print axioms Gobptree.C02_scan_exact_inv
+#print axioms Gobptree.C02_start_exact
+#print axioms Gobptree.C02_clamped_start_counterexample
